@@ -69,7 +69,7 @@ TraceNext ==
        \/ r.ev = "FlushTick" /\ TraceFlush(r) /\ UNCHANGED n
        \/ r.ev = "Housekeeping" /\ TraceHousekeeping(r) /\ UNCHANGED n
        \/ r.ev = "UplinkPkt" /\ TraceUplink(r) /\ UNCHANGED n
-       \/ r.ev \in {"Advance", "SetPath", "Amnesia", "SendFail", "SetCfg", "Burst", "Drain", "ReplyLost"} /\ TraceQuiet(r) /\ UNCHANGED n
+       \/ r.ev \in {"Advance", "SetPath", "Amnesia", "SendFail", "SetCfg", "Burst", "Drain", "ReplyLost", "Backpressure"} /\ TraceQuiet(r) /\ UNCHANGED n
 
 TraceSpec == TraceInit /\ [][TraceNext]_<<vars, i, n, pc>>
 
